@@ -754,6 +754,26 @@ EXTRA_EXAMPLES = [
 ]
 
 
+def jump_cascade_sources():
+    """a family of loops in which the length of an `if` body is swept, so that for some member the
+    target of the `if`'s jump sits just below the one-byte operand limit while the loop's own
+    FOR_ITER is one unit long and just above it once FOR_ITER got the EXTENDED_ARG it needs: the
+    encoder's jump-width fix point then needs a third pass (widening one jump pushes another over
+    the boundary).  Boundary: byte offset 254/256 on <=3.9, instruction index 255/256 on 3.10."""
+    out = []
+    for n in list(range(44, 68)) + list(range(112, 130)):
+        for odd in (False, True):
+            lines = ["out = []", "for x in (0, 1, 2):", "    if x:"]
+            lines += ["        out"] * n
+            if odd:
+                lines += ["        out.copy"]
+            lines += ["        out.append(x)"]
+            lines += ["    out"] * 140
+            lines += ["    out.append(-x)", "out.append('end')"]
+            out.append("\n".join(lines) + "\n")
+    return out
+
+
 def example_cases():
     out = []
     for src in REPO_EXAMPLES + EXTRA_EXAMPLES:
